@@ -9,11 +9,11 @@ package swisscard
 // postings between the import account (credited) and the TBD account, in the commodity named by the
 // "Währung" column, over the parsed "Betrag" column; on an error nothing is added.
 // Ghost trace of the calls Read / Parse / MustGet / NewFromString / Add (in that order).
-//@ def wfParser(p *parser) bool := p != nil && p.reader != nil && p.reader.FieldsPerRecord == 12 && p.registry != nil && p.registry.accounts != nil
+//@ def wfParserSC2(p *parser) bool := p != nil && p.reader != nil && p.reader.FieldsPerRecord == 12 && p.registry != nil && p.registry.accounts != nil
 //@     && wfCommodities(p.registry.commodities) && p.registry.accounts.index != p.registry.commodities.index && wfBuilder(p.builder) && validAccount(p.account)
 //
 //@ func (*parser).readBooking
-//@   requires wfParser(p)
+//@   requires wfParserSC2(p)
 //@   modifies *
 //@   panics
 //@   callback Read=0
@@ -21,7 +21,7 @@ package swisscard
 //@   callback MustGet=2
 //@   callback NewFromString=3
 //@   callback Add=4
-//@   ensures wfParser(p)
+//@   ensures wfParserSC2(p)
 //@   ensures [C13] @none: result != nil ==> (forall i int :: {tkind(i)} old(tlen()) <= i && i < tlen() ==> tkind(i) != kind("Add"))
 //@   ensures [C13] @one: result == nil ==> tlen() == old(tlen()) + 5 && tkind(old(tlen()) + 4) == kind("Add")
 //@   ensures [C13] @row: result == nil ==> targ("Parse", 1, old(tlen()) + 1) == tres("Read", old(tlen()))[0]
@@ -33,3 +33,4 @@ package swisscard
 //@        && built(dyn(targ("Add", 0, old(tlen()) + 4), "*transaction.Transaction").Postings[0], dyn(targ("Add", 0, old(tlen()) + 4), "*transaction.Transaction").Postings[1],
 //@             posting.Builder{Credit: p.account, Debit: dyn(targ("Add", 0, old(tlen()) + 4), "*transaction.Transaction").Postings[1].Account == p.account ? dyn(targ("Add", 0, old(tlen()) + 4), "*transaction.Transaction").Postings[0].Account : dyn(targ("Add", 0, old(tlen()) + 4), "*transaction.Transaction").Postings[1].Account,
 //@                 Commodity: tres("MustGet", old(tlen()) + 2), Quantity: tres("NewFromString", old(tlen()) + 3)})
+//@   ensures [C13] @text: result == nil ==> quotable(dyn(targ("Add", 0, old(tlen()) + 4), "*transaction.Transaction").Description)
